@@ -93,12 +93,18 @@ def _outer(a, b):
     return a.reshape((-1, 1)) * b.reshape((1, -1))
 
 
-def h_pca_all(B, n=4, p=2, q=2, alpha=1.0):
-    X, Y = da2d(B, "x", n, p, feat="x"), da2d(B, "y", n, q, feat="y")
-    m1 = M.cross("CPCCA", n_modes=2, alpha=alpha, use_pca=False).fit(X, Y, "time")
-    m2 = M.cross("CPCCA", n_modes=2, alpha=alpha, use_pca=True, n_pca_modes="all").fit(X, Y, "time")
+def h_pca_all(B, n=4, p=2, q=2, alpha=1.0, cplx=False):
+    X, Y = da2d(B, "x", n, p, cplx, feat="x"), da2d(B, "y", n, q, cplx, feat="y")
+    cls = "ComplexCPCCA" if cplx else "CPCCA"
+    m1 = M.cross(cls, n_modes=2, alpha=alpha, use_pca=False).fit(X, Y, "time")
+    m2 = M.cross(cls, n_modes=2, alpha=alpha, use_pca=True, n_pca_modes="all").fit(X, Y, "time")
     B.covers("PCA pre-reduction keeping all modes")
     B.eq("PCA(all modes) == no PCA: singular values", m2.data["singular_values"], m1.data["singular_values"])
+    # patterns up to the sign / phase of each mode: compare the projectors c c^H
+    for i in range(2):
+        a = m2.components()[0].isel(mode=i).data
+        b = m1.components()[0].isel(mode=i).data
+        B.eq(f"PCA(all modes) == no PCA: X pattern {i + 1} (projector)", a.reshape((-1, 1)) * np.conjugate(a).reshape((1, -1)), b.reshape((-1, 1)) * np.conjugate(b).reshape((1, -1)))
 
 
 def configs(tier):
@@ -117,6 +123,7 @@ def configs(tier):
     add("h_eeof1", "ExtendedEOF(embedding=1) vs EOF")
     add("h_mca_self", "MCA(X,X) vs EOF(X)")
     add("h_mca_self", "MCA(X,X) vs EOF(X)|n4p3", n=4, p=3)
+    add("h_pca_all", "PCA all modes vs no PCA|complex|alpha=1 (decided at witnesses only)", cplx=True)
     if tier == "thorough":
         add("h_pca_all", "PCA all modes vs no PCA|alpha=1")
         add("h_pca_all", "PCA all modes vs no PCA|alpha=0.5", alpha=0.5)
